@@ -145,6 +145,43 @@ def c19_exit():
     return "C19 origin of the area echoed differently", len(r["verdicts"]) == 1
 
 
+@case
+def prog_signal():
+    ev = first_events(need("C16", "program"), 30, lambda e: e["how"] == "0")
+    e = json.loads(json.dumps(ev[2]))
+    e["how"] = "signal:11"
+    r = run("Trace_Prog16", ev[:2] + [e], "prog16-bad")
+    return "C16 one run of the program state machine ends by a signal", len(r["verdicts"]) == 1 and not r["drifts"]
+
+
+@case
+def prog_result_despite_refusal():
+    ev = first_events(need("C19", "program"), 400, lambda e: e["how"] == "65")
+    ok = first_events(need("C19", "program"), 10, lambda e: e["how"] == "0")
+    e = json.loads(json.dumps(ev[0]))
+    e["written"] = e["written"] + ["json"]
+    r = run("Trace_Prog19", ok[:2] + [e], "prog19-bad")
+    return "C19 a refused run (65) that leaves a JSON result", len(r["verdicts"]) == 1
+
+
+@case
+def prog_other_code():
+    ev = first_events(need("C16", "program"), 400, lambda e: e["how"] == "74")
+    e = json.loads(json.dumps(ev[0]))
+    e["how"] = "65"
+    r = run("Trace_Prog16", [e], "prog16-drift")
+    return "program state machine: another deliberate code than the specification's is reported as drift, not as a violation", len(r["verdicts"]) == 0 and len(r["drifts"]) == 1
+
+
+@case
+def c05_demand_line():
+    ev = first_events(need("C05", "lattice"), 400, lambda e: e["ev"] == "Parse" and e["out"]["ok"] and len(e.get("input_needs", [])) > 1)
+    e = json.loads(json.dumps(ev[0]))
+    e["input_needs"][0]["v"][0] += 3
+    r = run("Trace_C05", [e], "c05-need")
+    return "C05 one declared DEMANDA value changed", len(r["verdicts"]) == 1
+
+
 def main():
     vlib.build(cli=True)
     failed = 0
